@@ -31,7 +31,7 @@ func (r *rng) n(n int) int {
 	}
 	return int(r.next() % uint64(n))
 }
-func (r *rng) pct(p int) bool         { return r.n(100) < p }
+func (r *rng) pct(p int) bool          { return r.n(100) < p }
 func (r *rng) pick(ss []string) string { return ss[r.n(len(ss))] }
 func (r *rng) perm(n int) []int {
 	p := identity(n)
@@ -780,7 +780,9 @@ func genProject(r *rng, tornPct int) Project {
 		if len(refs) > 6 {
 			refs = refs[:6]
 		}
-		isEnumRef := func(name string) bool { return strings.Contains(p.Text, "enum: "+name) || strings.Contains(p.Text, "enum:"+name) }
+		isEnumRef := func(name string) bool {
+			return strings.Contains(p.Text, "enum: "+name) || strings.Contains(p.Text, "enum:"+name)
+		}
 		for _, name := range refs {
 			if isEnumRef(name) {
 				if !r.pct(8) {
